@@ -98,7 +98,7 @@ def jobs(exes, family, tier, seed, prop, plans=None):
             d = os.path.join(wd, "%s_%s_%d" % (family, prop, n))
             os.makedirs(d, exist_ok=True)
             js.append(core.Job(exes[("e2e_" + queue, variant)],
-                               ["--family", family.split("@")[0], "--mode", mode, "--seed", seed * 10000 + n, "--scenarios", scen, "--dir", d],
+                               ["--family", family.split("@")[0], "--mode", mode, "--seed", seed * 10000 + n, "--scenarios", scen, "--dir", d, "--label", prop],
                                variant=variant, timeout=(900 if tier == "quick" else 3600), tag="e2e.%s.%s.%s.%s" % (family, queue, mode, variant), prop=prop, cwd=d))
     return js
 
